@@ -6,7 +6,9 @@ design; with CheckSignaled = FALSE TLC finds the exit-0-after-signal behaviour (
 defect repaired by the fix: commit).  Every enumerated scenario can be replayed into the real binary
 through the cfg-guarded fault points; the observed top-level exit status must be one the model
 admits for that scenario, and status 0 requires a complete output (compared byte-for-byte with a
-fault-free link).
+fault-free link).  For a sample of the replays the hook trace of the worker (phase, protocol-scope and
+fault events) is validated by TLC against Wild.tla: phases in order, scopes inside layout, nothing
+after the fault - which also ties the fault points' placement to the model.
 """
 from vlib import lifecycle as lc
 
@@ -43,7 +45,7 @@ def judge(scn, adm, obs):
 def run(ctx):
     cov = {}
     cov["anti_vacuity"] = [lc.anti_vacuity("mc/Lifecycle_noCheckSignaled.cfg", "ExitZeroImpliesComplete")]
-    lc.replay(ctx, PROP, select, judge, n_quick=160, n_thorough=2000, cov=cov)
+    lc.replay(ctx, PROP, select, judge, n_quick=160, n_thorough=2000, cov=cov, trace_sample=16 if ctx.quick else 100)
     return {"level": "fault_enumeration", "coverage": lc.generic_cov(cov),
             "assumptions": ["fault points placed by hooks; fault kinds are the real mechanisms",
                             "hard faults are injected in the worker process; the parent is never the target"]}
